@@ -275,6 +275,21 @@ func runC12(c *engine.Ctx) {
 					if k && eq && !st.HasEvent("assigned") {
 						return "a login without run id is registered under the empty run id"
 					}
+					// a generated id is used only when its generation succeeded
+					for _, l := range st.Lits {
+						if l.Op != token.EQL || l.Val {
+							continue
+						}
+						x, y := l.X, l.Y
+						if engine.IsNilConst(x) {
+							x, y = y, x
+						}
+						if engine.IsNilConst(y) {
+							if cl, i := engine.ResultOfCall(x); cl != nil && i == 1 && engine.SameFunc(engine.CalleeObj(cl), randID) {
+								return "the session is registered although generating its run id failed: the empty id is used and shared by every such login"
+							}
+						}
+					}
 					return ""
 				}}, "empty run id is always replaced by a generated one")
 		}
@@ -310,6 +325,10 @@ func runC12(c *engine.Ctx) {
 	// ---- R9 registrations and close requests of one session are handled in order (shared with C10.R14): the teardown
 	// of a session also waits for a registration that is still in progress ----
 	checkOrderedHandlers(c, "R9")
+
+	// ---- R11 what a proxy acquired is released by its Close (shared with C10.R1): a name left in the visitor registry
+	// blocks the client's own re-registration ----
+	checkCloseCoversRun(c, "R11")
 
 	// ---- R10 the name a proxy is registered under is the name it owns ----
 	c.Rule("R10", "ProxyBaseConfig.UnmarshalFromMsg copies NewProxy.ProxyName into Name verbatim (no trimming or case change): RegisterProxy registers the name under the message's spelling and every removal uses the proxy's own Name")
